@@ -842,3 +842,225 @@ Proof.
   rewrite (run_core (mkcfg false forks) forks tasks eq_refl _ _ _ (le_n _) Hb).
   reflexivity.
 Qed.
+
+(* ------------------------------------------------------------------ putting it together *)
+Lemma merged_bounds sel tasks :
+  Forall (fun p => (fst p < length (S0 tasks))%nat) (merge (mask_queues sel tasks 0)).
+Proof.
+  pose proof (merge_tags_valid (mask_queues sel tasks 0)) as H.
+  rewrite mask_queues_mask, length_mask, map_length in H. unfold S0. rewrite map_length.
+  rewrite mask_queues_mask. exact H.
+Qed.
+
+Lemma nth_recs tasks i : nth i (map k_recs tasks) [] = k_recs (nth i tasks (mktask None [])).
+Proof. change (@nil rec) with (k_recs (mktask None [])). apply map_nth. Qed.
+
+Lemma proj_merged sel tasks i :
+  proj i (merge (mask_queues sel tasks 0)) = if selected sel i then k_recs (nth i tasks (mktask None [])) else [].
+Proof. rewrite merge_preserves_task_order, mask_queues_mask, nth_mask. cbn [Nat.add]. rewrite nth_recs. reflexivity. Qed.
+
+Lemma merged_wfrem sel tasks : forallb wf_task tasks = true ->
+  forall i, wfrem (nth i (S0 tasks) sstate0) (proj i (merge (mask_queues sel tasks 0))).
+Proof.
+  intros Hwf i. rewrite proj_merged. unfold S0. rewrite nth_const.
+  destruct (selected sel i); [|exact I].
+  destruct (Nat.lt_ge_cases i (length tasks)) as [Hlt|Hge].
+  - apply wf_task_wfrem. rewrite forallb_forall in Hwf. apply Hwf. apply nth_In. exact Hlt.
+  - rewrite nth_overflow by exact Hge. exact I.
+Qed.
+
+(* C06, calls exact: a selected task without a fork()ing parent whose stream is the trace of a
+   call forest followed by still-open calls is shown, within the lines of that task, as exactly
+   those calls: indentation = nesting depth, duration = exit - entry, open calls without `}` *)
+Theorem task_calls_exact forks sel tasks i d f t :
+  forallb wf_task tasks = true -> selected sel i = true ->
+  k_parent (nth i tasks (mktask None [])) = None ->
+  k_recs (nth i tasks (mktask None [])) = flat_forest d f ++ flat_tail d t ->
+  filter (of_task i) (events_of (fst (replay_raw (mkcfg false forks) sel tasks))) =
+  render_forest i 0 f ++ render_tail i 0 t.
+Proof.
+  intros Hwf Hsel Hpar Hrecs.
+  rewrite (replay_refines_spec forks sel tasks Hwf).
+  rewrite (srun_task forks tasks i _ _ (merged_bounds sel tasks) (merged_wfrem sel tasks Hwf) (or_introl Hpar)).
+  rewrite proj_merged, Hsel, Hrecs. unfold S0. rewrite nth_const. unfold task_spec. cbn [s_set sstate0 s_dd].
+  rewrite spec_forest, spec_tail. reflexivity.
+Qed.
+
+(* the same through the folded (default) view, on the core of the events *)
+Theorem task_calls_exact_folded forks sel tasks i d f t :
+  forallb wf_task tasks = true -> selected sel i = true ->
+  k_parent (nth i tasks (mktask None [])) = None ->
+  k_recs (nth i tasks (mktask None [])) = flat_forest d f ++ flat_tail d t ->
+  filter (fun c : core => Nat.eqb (snd (fst (fst (fst c)))) i)
+         (map core_of (events_of (fst (replay_raw (mkcfg true forks) sel tasks)))) =
+  map core_of (render_forest i 0 f ++ render_tail i 0 t).
+Proof.
+  intros Hwf Hsel Hpar Hrecs. rewrite fold_is_presentation.
+  rewrite <- (task_calls_exact forks sel tasks i d f t Hwf Hsel Hpar Hrecs).
+  generalize (events_of (fst (replay_raw (mkcfg false forks) sel tasks))).
+  induction l as [|e l IH]; [reflexivity|]. cbn [map filter]. unfold of_task at 1. unfold core_of at 1. cbn [fst snd].
+  destruct (Nat.eqb (e_task e) i); cbn [map]; rewrite IH; reflexivity.
+Qed.
+
+(* a forked child: its first record takes over the display depth the parent had inside fork() *)
+Theorem fork_child_continues forks tasks S i r tl p :
+  k_parent (nth i tasks (mktask None [])) = Some p ->
+  s_set (nth i S sstate0) = false -> s_fork (nth p S sstate0) <> 0 ->
+  exists rest, srun forks tasks ((i, r) :: tl) S =
+    match r_type r with
+    | ENTRY => mkev true i (s_fork (nth p S sstate0)) (r_addr r) 0 (r_time r) :: rest
+    | EXIT => match N.to_nat (first_depth r) with
+              | O => []
+              | _ => mkev false i (N.pred (s_fork (nth p S sstate0))) (r_addr r) 0 (r_time r) :: rest
+              end
+    end.
+Proof.
+  intros Hp Hset Hfk. cbn [srun]. unfold s_inherit, s_first. rewrite Hp, Hset.
+  apply N.eqb_neq in Hfk. rewrite Hfk. cbn [s_dd s_stk s_fork].
+  destruct (r_type r); [eexists; reflexivity|].
+  destruct (N.to_nat (first_depth r)); cbn [repeat]; [exists []; reflexivity|].
+  rewrite N.sub_diag. eexists; reflexivity.
+Qed.
+
+(* timestamps of the printed lines never decrease when every task's own times do not *)
+Lemma StronglySorted_map {A B} (f : A -> B) (R : B -> B -> Prop) l :
+  Sorted.StronglySorted (fun a b => R (f a) (f b)) l -> Sorted.StronglySorted R (map f l).
+Proof.
+  induction 1 as [|a l Hs IH Ha]; cbn; constructor; [exact IH|].
+  apply Forall_forall. intros b Hb. apply in_map_iff in Hb. destruct Hb as (x & <- & Hx).
+  rewrite Forall_forall in Ha. apply Ha. exact Hx.
+Qed.
+
+Theorem lines_in_time_order forks sel tasks :
+  Forall time_sorted (map k_recs tasks) ->
+  let ls := filter not_warn (fst (replay_raw (mkcfg false forks) sel tasks)) in
+  map tag_of_line ls = map tag_of_rec (merge (mask_queues sel tasks 0)) /\
+  Sorted.StronglySorted N.le (map l_time ls).
+Proof.
+  intros Hs ls. unfold ls, replay_raw.
+  pose proof (run_nofold_tags (mkcfg false forks) tasks eq_refl (merge (mask_queues sel tasks 0)) (init_g sel tasks)) as Ht.
+  split; [exact Ht|].
+  replace (map l_time (filter not_warn (fst (run (mkcfg false forks) tasks (merge (mask_queues sel tasks 0)) (init_g sel tasks)))))
+    with (map snd (map tag_of_line (filter not_warn (fst (run (mkcfg false forks) tasks (merge (mask_queues sel tasks 0)) (init_g sel tasks))))))
+    by (rewrite map_map; reflexivity).
+  rewrite Ht, map_map. apply StronglySorted_map. cbn [tag_of_rec snd].
+  apply merge_times_nondecreasing.
+  rewrite mask_queues_mask. clear -Hs. generalize O. induction Hs as [|q rest Hq _ IH]; intros k; cbn [mask]; constructor.
+  - destruct (selected sel k); [exact Hq|constructor].
+  - apply IH.
+Qed.
+
+(* ------------------------------------------------------------------ --tid *)
+Lemma mask_all : forall qs k, mask (fun _ => true) qs k = qs.
+Proof. induction qs as [|q rest IH]; intros k; cbn; [reflexivity|]. rewrite IH. reflexivity. Qed.
+
+Lemma mask_queues_none tasks : mask_queues None tasks 0 = map k_recs tasks.
+Proof. rewrite mask_queues_mask. apply mask_all. Qed.
+
+(* selection closed under "parent of a selected forked child" *)
+Definition parent_closed (Sel : nat -> bool) (tasks : list task) : Prop :=
+  forall i p, Sel i = true -> k_parent (nth i tasks (mktask None [])) = Some p -> Sel p = true.
+
+Definition s_after (forks : list N) (ss : sstate) (r : rec) : sstate :=
+  match r_type r with
+  | ENTRY => mkss true (s_dd ss + 1) (if existsb (N.eqb (r_addr r)) forks then s_dd ss + 1 else s_fork ss)
+                  (r_time r :: s_stk ss)
+  | EXIT => mkss true (N.pred (s_dd ss)) (s_fork ss) (tl (s_stk ss))
+  end.
+
+Lemma sstep_explicit forks tasks S i r rest tl : wfrem (nth i S sstate0) (r :: rest) ->
+  let ss := s_first (s_inherit tasks S i) (nth i S sstate0) r in
+  exists ev,
+    srun forks tasks ((i, r) :: tl) S = ev :: srun forks tasks tl (supd S i (s_after forks ss r)) /\
+    wfrem (s_after forks ss r) rest /\ e_task ev = i.
+Proof.
+  intros Hwf ss.
+  destruct (wfrem_first (s_inherit tasks S i) _ _ _ Hwf) as (last & Hwf1 & Hle & Hlast & Hbound).
+  fold ss in Hwf1, Hle. cbn [srun]. fold ss. unfold s_after. cbn [wf_stream] in *.
+  destruct (r_type r) eqn:Hty.
+  - eexists. split; [reflexivity|]. split; [|reflexivity].
+    unfold wfrem. cbn [s_set s_stk]. exists (r_time r). split.
+    + cbn [length]. replace (N.of_nat (Datatypes.S (length (s_stk ss)))) with (N.of_nat (length (s_stk ss)) + 1) by lia. lia.
+    + constructor; [lia|]. eapply Forall_impl; [|exact Hle]. cbn. intros; lia.
+  - destruct (s_stk ss) as [|t0 stk'] eqn:Hstk; [cbn [length] in Hwf1; lia|].
+    inversion Hle as [|? ? Ht0 Hle']; subst.
+    eexists. split; [reflexivity|]. split; [|reflexivity].
+    unfold wfrem. cbn [s_set s_stk List.tl]. exists (r_time r). split.
+    + cbn [length] in Hwf1. replace (N.of_nat (Datatypes.S (length stk')) - 1) with (N.of_nat (length stk')) in Hwf1 by lia. lia.
+    + eapply Forall_impl; [|exact Hle']. cbn. intros; lia.
+Qed.
+
+(* the calls of the selected tasks are shown exactly as in the full view *)
+Lemma srun_keep forks tasks Sel : parent_closed Sel tasks -> forall l St St',
+  length St = length St' ->
+  Forall (fun p => (fst p < length St)%nat) l ->
+  (forall j, wfrem (nth j St sstate0) (proj j l)) ->
+  (forall i, Sel i = true -> nth i St sstate0 = nth i St' sstate0) ->
+  filter (fun e => Sel (e_task e)) (srun forks tasks l St) = srun forks tasks (keep Sel l) St'.
+Proof.
+  intros Hpc. induction l as [|[j r] tl IH]; intros St St' Hlen Hb Hwf Hag; [reflexivity|].
+  inversion Hb as [|? ? Hj Hb']; subst. cbn [fst] in Hj.
+  pose proof (Hwf j) as Hwj. rewrite proj_cons_same in Hwj.
+  destruct (sstep_explicit forks tasks St j r (proj j tl) tl Hwj) as (ev & E1 & Hw' & Etask).
+  set (ss := s_first (s_inherit tasks St j) (nth j St sstate0) r) in *.
+  assert (Hwf' : forall k, wfrem (nth k (supd St j (s_after forks ss r)) sstate0) (proj k tl)).
+  { intros k. rewrite nth_supd by assumption. destruct (Nat.eqb k j) eqn:Ekj.
+    - apply Nat.eqb_eq in Ekj. subst k. exact Hw'.
+    - apply Nat.eqb_neq in Ekj. specialize (Hwf k). rewrite proj_cons_other in Hwf by assumption. exact Hwf. }
+  rewrite E1. cbn [filter]. rewrite Etask.
+  unfold keep. cbn [filter fst]. fold (keep Sel tl).
+  destruct (Sel j) eqn:Esj.
+  - (* a selected task: both runs make the same step *)
+    assert (Hinh : s_inherit tasks St j = s_inherit tasks St' j).
+    { unfold s_inherit. destruct (k_parent (nth j tasks (mktask None []))) as [p|] eqn:Ep; [|reflexivity].
+      rewrite (Hag p (Hpc j p Esj Ep)). reflexivity. }
+    assert (Hwj' : wfrem (nth j St' sstate0) (r :: proj j tl)) by (rewrite <- (Hag j Esj); exact Hwj).
+    destruct (sstep_explicit forks tasks St' j r (proj j tl) (keep Sel tl) Hwj') as (ev' & E1' & _ & _).
+    rewrite <- Hinh, <- (Hag j Esj) in E1'. fold ss in E1'.
+    rewrite E1'.
+    assert (ev = ev').
+    { cbn [srun] in E1, E1'. rewrite <- ?Hinh, <- ?(Hag j Esj) in E1'. fold ss in E1, E1'.
+      destruct (r_type r); [inversion E1; inversion E1'; congruence|].
+      destruct (s_stk ss); [discriminate|inversion E1; inversion E1'; congruence]. }
+    subst ev'. f_equal. apply IH.
+    + rewrite !length_supd. exact Hlen.
+    + rewrite length_supd. exact Hb'.
+    + exact Hwf'.
+    + intros i Hi. assert (Hj' : (j < length St')%nat) by lia.
+      rewrite !nth_supd by assumption. destruct (Nat.eqb i j); [reflexivity|apply Hag; exact Hi].
+  - (* an unselected task: its line disappears, nobody else is affected *)
+    apply IH.
+    + rewrite length_supd. exact Hlen.
+    + rewrite length_supd. exact Hb'.
+    + exact Hwf'.
+    + intros i Hi. rewrite nth_supd by assumption.
+      destruct (Nat.eqb i j) eqn:Eij; [apply Nat.eqb_eq in Eij; congruence|apply Hag; exact Hi].
+Qed.
+
+(* C06, --tid: with a parent-closed selection of well-formed tasks, `replay --tid S` shows exactly
+   the sub-sequence of the full view that belongs to the selected tasks - same lines, same
+   indentation, same durations, same timestamps *)
+Theorem tid_selects forks sel tasks :
+  forallb wf_task tasks = true -> parent_closed (selected sel) tasks ->
+  events_of (fst (replay_raw (mkcfg false forks) sel tasks)) =
+  filter (fun e => selected sel (e_task e)) (events_of (fst (replay_raw (mkcfg false forks) None tasks))).
+Proof.
+  intros Hwf Hpc.
+  rewrite (replay_refines_spec forks sel tasks Hwf), (replay_refines_spec forks None tasks Hwf).
+  rewrite (srun_keep forks tasks (selected sel) Hpc _ (S0 tasks) (S0 tasks) eq_refl
+             (merged_bounds None tasks) (merged_wfrem None tasks Hwf) (fun _ _ => eq_refl)).
+  rewrite mask_queues_none, mask_queues_mask, merge_mask. reflexivity.
+Qed.
+
+(* ... and the guard is needed: selecting only a forked child loses the depth it continues at *)
+Definition tid_witness_tasks : list task :=
+  [ mktask None [mkrec 1000 ENTRY 0 1; mkrec 1100 ENTRY 1 2; mkrec 1200 ENTRY 2 4; mkrec 1300 EXIT 2 4;
+                 mkrec 1400 EXIT 1 2; mkrec 1500 EXIT 0 1];
+    mktask (Some 0%nat) [mkrec 1250 EXIT 2 4; mkrec 1260 ENTRY 2 3; mkrec 1270 EXIT 2 3; mkrec 1280 EXIT 1 2] ].
+
+Lemma tid_child_only_refuted :
+  forallb wf_task tid_witness_tasks = true /\
+  events_of (fst (replay_raw (mkcfg false [4]) (Some [1%nat]) tid_witness_tasks)) <>
+  filter (fun e => selected (Some [1%nat]) (e_task e))
+         (events_of (fst (replay_raw (mkcfg false [4]) None tid_witness_tasks))).
+Proof. split; [vm_compute; reflexivity|]. vm_compute. intros H. discriminate H. Qed.
